@@ -345,6 +345,7 @@ _FS = "nessai/flowsampler.py"
 _FPF = "nessai/proposal/flowproposal.py"
 _IFM = "nessai/flowmodel/importance.py"
 MUTANTS = [
+    {"id": "rename-before-close", "file": _IO, "old": "        module.dump(data, file)\n    shutil.move(temp_filename, filename)\n", "new": "        module.dump(data, file)\n        shutil.move(temp_filename, filename)\n", "expect": "CRASH before WRITE+CLOSE"},
     {"id": "dump-in-place", "file": _IO, "old": '    temp_filename = filename + ".temp"\n    with open(temp_filename, "wb") as file:\n        module.dump(data, file)\n    shutil.move(temp_filename, filename)\n', "new": '    with open(filename, "wb") as file:\n        module.dump(data, file)\n', "expect": "safe_file_dump(save_existing=False) from [one checkpoint]"},
     {"id": "backup-suffix-mismatch", "file": _IO, "old": 'old_filename = filename + ".old"', "new": 'old_filename = filename + ".bak"', "expect": "safe_file_dump(save_existing=True)"},
     {"id": "reader-ignores-old", "file": _FS, "old": "for f in [resume_file, resume_file + \".old\"]", "new": "for f in [resume_file]", "expect": "safe_file_dump(save_existing=True) from [one checkpoint] killed at step 1"},
